@@ -17,7 +17,7 @@ const rule = "exhaustive: files of n<=5 statements (distinct ids, and an all-equ
 	"API tier = migrate.Executor on MemDir with recording driver/revisions; CLI tier = atlas migrate apply --tx-mode none on a SQLite file. " +
 	"non-trivial = the edited file differs from the original in statements or layout; distinct key = (old, k, new, cosmetic, tier)"
 
-func key(c Case) string { return fmt.Sprintf("%v|%d|%d|%v|%d|%v|%v", c.Old, c.K, c.K2, c.New, c.Cosmetic, c.CLI, c.Quiet) }
+func key(c Case) string { return fmt.Sprintf("%v|%d|%d|%v|%d|%v|%v", c.Old, c.K, c.K2, c.New, c.Cosmetic, c.CLI, c.Quiet) + fmt.Sprint(c.NoHashes) }
 
 func classify(col *ev.Collector, c Case) {
 	cls := "prefix-changed"
@@ -35,6 +35,9 @@ func classify(col *ev.Collector, c Case) {
 	col.Class("edit/" + c.Edit)
 	if c.Quiet {
 		col.Class(tier + "/first-attempt-left-no-error-text")
+	}
+	if c.NoHashes {
+		col.Class(tier + "/partial-revision-without-statement-checksums")
 	}
 	if fmt.Sprint(c.Old) != fmt.Sprint(c.New) || c.Cosmetic != 0 {
 		col.NonTrivial(key(c))
@@ -101,6 +104,10 @@ func enumerate(maxN int, f func(Case) bool) {
 					}
 					// the same edit after a first attempt that ended like a killed process (progress recorded, no error text)
 					if !f(Case{Old: old, K: k, New: e.ids, Edit: e.name, Quiet: true}) {
+						return
+					}
+					// the same edit against a partial revision that carries no statement checksums
+					if !f(Case{Old: old, K: k, New: e.ids, Edit: e.name, NoHashes: true}) {
 						return
 					}
 					// a second partial failure during the resume (only meaningful when the applied prefix is unchanged)
